@@ -2,6 +2,7 @@
    Property theorems only; proofs live in SchedProofs.v (and BuildProofs.v for the scheduler). *)
 From Coq Require Import Permutation.
 From HclV Require Import Base Expr Machine MachineSpec SchedSpec SchedProofs Build BuildSpec Generated BuildProofs.
+From HclV Require TextLevelSpec TextLevelProofs.
 From Coq Require Import Permutation.
 From HclV Require OrderSpec OrderProofs DiagOrderSpec DiagOrderProofs.
 From HclV Require Import Build BuildSpec Generated.
@@ -166,3 +167,22 @@ Print Assumptions C01_next_state_from_solution.
 Theorem C01_step_fails_iff_division_by_zero : SemanticsSpec.stmt_step_fails_iff_division_by_zero.
 Proof. exact SemanticsProofs.step_fails_iff_division_by_zero_holds. Qed.
 Print Assumptions C01_step_fails_iff_division_by_zero.
+
+(* ---- END TO END, from the program TEXT (TextLevelSpec.v / TextLevelProofs.v): the user's file (valid
+   UTF-8) after the compiled preamble, lexed with any Unicode classification, parsed with the compiled
+   tier table, built with the compiled component table; states = those reachable by loading an
+   image and stepping.  No hypothesis a user cannot check by reading the file. ------------------- *)
+Theorem C01_text_level :
+  TextLevelSpec.stmt_setting_is_the_tools /\ TextLevelSpec.stmt_text_has_declared_widths /\
+  TextLevelSpec.stmt_text_reachable_cycle_start /\ TextLevelSpec.stmt_text_cycle_has_one_solution /\
+  TextLevelSpec.stmt_text_cycle_computes_the_solution /\ TextLevelSpec.stmt_text_schedule_independent /\
+  TextLevelSpec.stmt_text_statement_order_free.
+Proof.
+  split; [exact TextLevelProofs.setting_is_the_tools_holds |].
+  split; [exact TextLevelProofs.text_has_declared_widths_holds |].
+  split; [exact TextLevelProofs.text_reachable_cycle_start_holds |].
+  split; [exact TextLevelProofs.text_cycle_has_one_solution_holds |].
+  split; [exact TextLevelProofs.text_cycle_computes_the_solution_holds |].
+  split; [exact TextLevelProofs.text_schedule_independent_holds | exact TextLevelProofs.text_statement_order_free_holds].
+Qed.
+Print Assumptions C01_text_level.
